@@ -37,3 +37,62 @@ theorem detach_get_moved {f : Forest} (inv : f.Inv) {n : Nat} {t : HTree} (hg : 
   exact this
 
 end XotModel
+
+namespace XotModel
+open HTree Spec PairAll
+
+/-- `element_wrap(n)` keeps the subtree of `n` as it is (below the wrapper). -/
+theorem wrap_get_moved {f : Forest} (inv : f.Inv) {n name : Nat} {t : HTree}
+    (hok : (f.elementWrap n name).2.1 = .ok) (hg : f.get? n = some t) :
+    (f.elementWrap n name).1.get? n = some t := by
+  have nd := inv.nodup
+  have inv' := Forest.elementWrap_inv inv n name
+  have nd' := inv'.nodup
+  have htn : t.handle = n := (findList?_some f.roots t hg).1
+  have e : (f.elementWrap n name).1 = specWrap n name f := by
+    cases hpar : f.parent? n with
+    | none => exact (wrap_spec_root inv hpar hok).1
+    | some p => exact (wrap_spec_kid inv hpar hok).1
+  -- the wrapper occurs in the new forest with `t` as its child
+  suffices h : ∃ anc, Fws.Occurs (f.elementWrap n name).1 (HTree.node f.next (.element name) [t]) anc by
+    obtain ⟨anc, oW⟩ := h
+    have ot : Fws.Occurs (f.elementWrap n name).1 t (HTree.node f.next (.element name) [t] :: anc) :=
+      Fws.Occurs.kid oW (by simp [HTree.kids])
+    have := ot.get? nd'
+    rw [htn] at this
+    exact this
+  rw [e]
+  unfold specWrap
+  rw [hg]
+  simp only
+  rcases Forest.root_or_ctx hg with hroot | ⟨c, hctx⟩
+  · have hno : f.ctx? n = none := Forest.ctx_none_of_root nd hroot
+    rw [Forest.parent?_of_no_ctx hno]
+    simp only
+    refine ⟨[], Fws.Occurs.root ?_⟩
+    show HTree.node f.next (.element name) [t] ∈ dropTop n f.roots ++ [HTree.node f.next (.element name) [t]]
+    simp
+  · obtain ⟨e0, v, so⟩ := SiteAt.of_ctx nd hctx
+    obtain ⟨p, l, k, r⟩ := c
+    simp only at e0 so
+    have hself : k = t := by
+      have := Forest.get?_of_ctx nd hctx
+      rw [hg] at this
+      exact (Option.some.inj this).symm
+    subst hself
+    have hpar : f.parent? n = some p := Forest.parent?_of_ctx hctx
+    rw [hpar]
+    simp only
+    obtain ⟨ndL, _⟩ := so.nodupKids
+    obtain ⟨tl, tr⟩ := tops_ne_of_nodup ndL
+    have hrep : replaceTop n (fun k' => [HTree.node f.next (.element name) [k']]) (l ++ k :: r) =
+        l ++ [HTree.node f.next (.element name) [k]] ++ r := by
+      rw [← e0]; exact replaceTop_mid rfl tl
+    have hgp := Forest.get?_editAt_self (replaceTop n (fun k' => [HTree.node f.next (.element name) [k']])) so.kids
+    rw [hrep] at hgp
+    have hgp' : ({ f.editAt (some p) (replaceTop n (fun k' => [HTree.node f.next (.element name) [k']])) with
+        next := f.next + 1 } : Forest).get? p = some (.node p v (l ++ [HTree.node f.next (.element name) [k]] ++ r)) := hgp
+    obtain ⟨anc, oP⟩ := Fws.occurs_of_get? hgp'
+    exact ⟨_, Fws.Occurs.kid oP (by simp [HTree.kids])⟩
+
+end XotModel
